@@ -2,6 +2,8 @@ import JSight.Rules
 import JSight.NumberDen
 import JSight.RulesFullProofs
 import JSight.Props.C10
+import JSight.C02TextThm
+import JSight.AnnotExamples
 /-!
 # C02 — Scalar rules admit exactly the values their definitions describe (decision logic)
 
@@ -216,5 +218,144 @@ example : litOKFull RulesF.noOracle (compile .s (bs "\"a\"") [.const true, .null
 example : litOKFull RulesF.noOracle (compile .s (bs "\"a\"") [.const false, .nullable false, .minLength 1]) sNull = false := by decide +kernel
 
 end Full
+
+/-! # C02 at TEXT level: a scalar schema with its rules written as text
+
+`Lay.annTextB a EX s1 s2 ob s3 tl` is the schema text `EX s1 // s2 {ob} s3 tl` (`a = .inline`) or `EX s1 /* s2 {ob} s3 tl`
+(`a = .multi`, `tl` = `*/` + white space): a top-level scalar EXAMPLE and a rule object of the grammar `Lay.AnnValid`
+(rules `blanks name spaces : blanks value blanks` with bare names and LITERAL values, commas, optional trailing comma,
+line breaks in the multi-line form). `ob.pairs` is the list (name, value token) in written order. `E2E.validateText`
+runs, inside Lean, schema scanner model → loader model (rule names and value spans) → `Compile` (the constraint
+constructors, `compileNode`, `CheckRootSchema`) → JSON scanner model → validator machine. No IR is trusted: the
+statements speak about the two TEXTS.
+
+`C02T.okRules EX pairs` (decidable) = the kind of EX can be guessed ∧ the constraint constructors accept every rule in
+written order (`C02T.okCreate`: known name, well-formed value, no duplicate) ∧ the conditions of `compileNode`
+(`C02T.okBasic`, in the order of `compiler_basic.go`: no `or` / `enum` / `optional` / `additionalProperties`; next to
+`precision` a `type` says `decimal`; `type` is the example's JSON kind, `decimal` on a float with `precision`, or
+`uuid` / `date` on a string without length rules; `exclusiveMinimum` / `exclusiveMaximum` only next to `min` / `max`;
+min ≤ max (strictly under an exclusive flag), minLength ≤ maxLength; every constraint fits the example's kind).
+`C02T.compiledOf EX rules` is the scalar node the compiler leaves: kind and example of EX, `nul` = a `nullable` rule
+other than `nullable: false` is present, the literal validators in written order with the exclusive flags folded into
+`min` / `max`, false-valued `const` dropped, the format of `type: "uuid" | "date"` last.
+Tied to the real `Check` / `Validate` by `vh c02-text` (text → real library = driver `e2e` = driver `c02t`, the
+closed form evaluated from the structured rule list through `C02T.specOfRules` = `RulesF.compile` of the written rules). -/
+
+section TextLevel
+open Lay SchemaScan C02T
+
+/-- **C02 at text level.** For every schema text `EX // {r1: v1, …}` / `EX /* {…} */` of the grammar whose rule set
+passes the creation and basic-compile stages and whose EXAMPLE satisfies its own rules (the check stage), and every
+document text that is one JSON scalar with white space around it: the outcome of the whole pipeline is `acc` exactly
+when `ValidateLiteralValue` (`RulesF.litOKFull`, the model of `C02_accept_iff_full`) accepts the document token on the
+compiled node of the written rules (`Compile.noOracles`: no rule of the class calls the standard library). -/
+theorem C02_text_level (a : Ann) (ha : a.isAnn = true) (EX s1 s2 : List UInt8) (ob : BObj)
+    (s3 tl : List UInt8) (hv : AnnValid a EX s1 s2 ob s3 tl) (hok : okRules EX ob.pairs = true)
+    (hex : RulesF.litOKFull Compile.noOracles (compiledOf EX (mk ob.pairs)) EX = true)
+    (docTok ws0 ws1 : List UInt8) (hd : JsonScan.IsScalar (docTok.map JsonScan.classify))
+    (hw0 : JsonScan.IsWs (ws0.map JsonScan.classify)) (hw1 : JsonScan.IsWs (ws1.map JsonScan.classify)) :
+    E2E.validateText (annTextB a EX s1 s2 ob s3 tl) [] (ws0 ++ (docTok ++ ws1))
+      = if RulesF.litOKFull Compile.noOracles (compiledOf EX (mk ob.pairs)) docTok then .acc else .rej :=
+  C02T.text_level a ha EX s1 s2 ob s3 tl hv hok hex docTok ws0 ws1 hd hw0 hw1
+
+/-- **compile half**: scanner model, loader model, constraint constructors and `compileNode` on the text yield the
+literal node of the written rules — exclusive flags folded into the bounds, false-valued `nullable` / `const`
+dropped, the format of a `type` rule added, positions and layout gone -/
+theorem C02_text_compile_half (a : Ann) (ha : a.isAnn = true) (EX s1 s2 : List UInt8) (ob : BObj) (s3 tl : List UInt8)
+    (hv : AnnValid a EX s1 s2 ob s3 tl) (hok : okRules EX ob.pairs = true) :
+    E2E.loadSchema (annTextB a EX s1 s2 ob s3 tl) false = .ok (some (.lit (compiledOf EX (mk ob.pairs)) false)) :=
+  C02T.loadSchema_annot a ha EX s1 s2 ob s3 tl hv hok
+
+/-- **the EXAMPLE violates one of its own rules**: `Check` refuses the schema — whatever the document — with the code
+of the first failing validator (`Compile.litErr`: 210 kind, 602 min / max / precision, 603 lengths, 614 uuid, 616 date,
+615 const) at the offset of EX, which is 0 in these texts (C04's statement for the scalar case, on text) -/
+theorem C02_text_check_rejects_bad_example (a : Ann) (ha : a.isAnn = true) (EX s1 s2 : List UInt8) (ob : BObj)
+    (s3 tl : List UInt8) (hv : AnnValid a EX s1 s2 ob s3 tl) (hok : okRules EX ob.pairs = true)
+    (hex : RulesF.litOKFull Compile.noOracles (compiledOf EX (mk ob.pairs)) EX = false) (doc : List UInt8) :
+    E2E.validateText (annTextB a EX s1 s2 ob s3 tl) [] doc
+      = .schemaErr ((Compile.litErr (compiledOf EX (mk ob.pairs)) EX).getD 0) 0 :=
+  C02T.text_check_rejects a ha EX s1 s2 ob s3 tl hv hok hex doc
+
+/-- the same statements with the node written through `RulesF.compile` of the parsed rules (`C02T.specOfRules`: the
+`RulesF.Spec` of `C02_accept_iff_full`) in place of `compiledOf` — the two differ in the order of the validators only.
+Stated, not proved here; evaluated against the real library by `vh c02-text` (the closed form `c02t` uses it). -/
+def C02_text_level_spec_full : Prop :=
+  ∀ (o : RulesF.Oracles) (a : Ann), a.isAnn = true → ∀ (EX s1 s2 : List UInt8) (ob : BObj) (s3 tl : List UInt8),
+    AnnValid a EX s1 s2 ob s3 tl → okRules EX ob.pairs = true →
+    RulesF.litOKFull o (specOfRules EX ob.pairs) EX = true →
+    ∀ (docTok ws0 ws1 : List UInt8), JsonScan.IsScalar (docTok.map JsonScan.classify) →
+    JsonScan.IsWs (ws0.map JsonScan.classify) → JsonScan.IsWs (ws1.map JsonScan.classify) →
+    E2E.validateText (annTextB a EX s1 s2 ob s3 tl) [] (ws0 ++ (docTok ++ ws1))
+      = if RulesF.litOKFull o (specOfRules EX ob.pairs) docTok then .acc else .rej
+
+/-- rule order: permuting the rules inside the annotation leaves the outcome unchanged. Stated, not proved here
+(`vh c02-text` checks it on the real library: every third node is run with its rules permuted and re-spelled). -/
+def C02_text_rule_order_full : Prop :=
+  ∀ (a a' : Ann), a.isAnn = true → a'.isAnn = true → ∀ (EX s1 s2 s1' s2' : List UInt8) (ob ob' : BObj)
+    (s3 tl s3' tl' : List UInt8), AnnValid a EX s1 s2 ob s3 tl → AnnValid a' EX s1' s2' ob' s3' tl' →
+    ob.pairs.Perm ob'.pairs → okRules EX ob.pairs = true → ∀ doc : List UInt8,
+    (E2E.validateText (annTextB a EX s1 s2 ob s3 tl) [] doc = .acc ↔
+      E2E.validateText (annTextB a' EX s1' s2' ob' s3' tl') [] doc = .acc)
+
+/-! Non-vacuity: `1 // {min: 0, max :5, }` (inline, trailing comma) and `1 /*⏎ {min: 0,⏎ max: 5⏎}⏎*/⏎` (multi-line)
+against the documents ` 4⏎` (accepted) and `6` (rejected); `7 // {min: 0, max :5, }`
+is refused by `Check` with code 602 at offset 0. -/
+
+example : okRules Lay.Ex.one Lay.Ex.obInl.pairs = true := by decide +kernel
+example : okRules Lay.Ex.one Lay.Ex.obMl.pairs = true := by decide +kernel
+example : Lay.Ex.obInl.pairs = [(bs "min", bs "0"), (bs "max", bs "5")] := by decide
+example : annTextB .inline Lay.Ex.one [32] [32] Lay.Ex.obInl [] [] = bs "1 // {min: 0, max :5, }" := by decide
+-- typical rule sets meet the predicate (values as tokens; `"…"` escaped for Lean)
+example : okRules (bs "1.5") [(bs "min", bs "1.5"), (bs "exclusiveMinimum", bs "false"), (bs "max", bs "2"),
+    (bs "exclusiveMaximum", bs "true"), (bs "nullable", bs "true")] = true := by decide +kernel
+example : okRules (bs "1.25") [(bs "precision", bs "2"), (bs "type", bs "\"decimal\""), (bs "const", bs "false")] = true := by
+  decide +kernel
+example : okRules (bs "\"abc\"") [(bs "minLength", bs "1"), (bs "maxLength", bs "3"), (bs "type", bs "\"string\""),
+    (bs "const", bs "true")] = true := by decide +kernel
+example : okRules (bs "\"2024-02-29\"") [(bs "type", bs "\"date\""), (bs "nullable", bs "false")] = true := by
+  decide +kernel
+example : okRules (bs "true") [(bs "const", bs "true"), (bs "type", bs "\"boolean\"")] = true := by decide +kernel
+-- … and the offending ones do not
+example : okRules (bs "1") [(bs "exclusiveMinimum", bs "true")] = false := by decide +kernel
+example : okRules (bs "1") [(bs "min", bs "2"), (bs "max", bs "1")] = false := by decide +kernel
+example : okRules (bs "1") [(bs "min", bs "0"), (bs "min", bs "0")] = false := by decide +kernel
+example : okRules (bs "1") [(bs "type", bs "\"float\"")] = false := by decide +kernel
+
+theorem ex_doc4 : JsonScan.IsScalar (([52] : List UInt8).map JsonScan.classify) := ⟨.d19, [], .d1, false, .d1, rfl, rfl, rfl, rfl⟩
+theorem ex_doc6 : JsonScan.IsScalar (([54] : List UInt8).map JsonScan.classify) := ⟨.d19, [], .d1, false, .d1, rfl, rfl, rfl, rfl⟩
+
+/-- `1 // {min: 0, max :5, }` accepts ` 4⏎` -/
+example : E2E.validateText (annTextB .inline Lay.Ex.one [32] [32] Lay.Ex.obInl [] []) [] ([32] ++ ([52] ++ [10])) = .acc := by
+  rw [C02_text_level .inline rfl Lay.Ex.one [32] [32] Lay.Ex.obInl [] [] Lay.Ex.annInl_valid
+    (by decide +kernel) (by decide +kernel) [52] [32] [10] ex_doc4
+    (by simp [JsonScan.IsWs, JsonScan.classify, JsonScan.Cls.isWs])
+    (by simp [JsonScan.IsWs, JsonScan.classify, JsonScan.Cls.isWs])]
+  have h : RulesF.litOKFull Compile.noOracles (compiledOf Lay.Ex.one (mk Lay.Ex.obInl.pairs)) [52] = true := by
+    decide +kernel
+  rw [if_pos h]
+
+/-- the multi-line spelling `1 /*⏎ {min: 0,⏎ max: 5⏎}⏎*/⏎` rejects `6` -/
+example : E2E.validateText (annTextB .multi Lay.Ex.one [32] [10, 32] Lay.Ex.obMl [10] [42, 47, 10]) [] ([] ++ ([54] ++ [])) = .rej := by
+  rw [C02_text_level .multi rfl Lay.Ex.one [32] [10, 32] Lay.Ex.obMl [10] [42, 47, 10] Lay.Ex.annMl_valid
+    (by decide +kernel) (by decide +kernel) [54] [] [] ex_doc6 (by simp [JsonScan.IsWs]) (by simp [JsonScan.IsWs])]
+  have h : RulesF.litOKFull Compile.noOracles (compiledOf Lay.Ex.one (mk Lay.Ex.obMl.pairs)) [54] = false := by
+    decide +kernel
+  rw [h]
+  rfl
+
+theorem ann7_valid : AnnValid .inline [55] [32] [32] Lay.Ex.obInl [] [] :=
+  ⟨⟨.d19, [], .d1, false, .d1, rfl, rfl, rfl, rfl⟩, by simp only [IsSpTabs]; decide, by simp only [ABlank]; decide,
+    Lay.Ex.obInl_valid, by simp only [ABlank]; decide, .eof⟩
+
+/-- `7 // {min: 0, max :5, }`: the example exceeds its own `max` — error 602 at offset 0, for every document -/
+example (doc : List UInt8) :
+    E2E.validateText (annTextB .inline [55] [32] [32] Lay.Ex.obInl [] []) [] doc = .schemaErr 602 0 := by
+  rw [C02_text_check_rejects_bad_example .inline rfl [55] [32] [32] Lay.Ex.obInl [] [] ann7_valid (by decide +kernel)
+    (by decide +kernel) doc]
+  have h : Compile.litErr (compiledOf [55] (mk Lay.Ex.obInl.pairs)) [55] = some 602 := by decide +kernel
+  rw [h]
+  rfl
+
+end TextLevel
 
 end Props.C02
